@@ -85,12 +85,14 @@ DO_Check(t) ==
     ELSE "ok"
 
 T2(t) == [t EXCEPT !.batches = t.batches2, !.len = t.len2, !.scenario = [t.scenario EXCEPT !.tb = t.scenario.tb2]]
+T3(t) == [t EXCEPT !.batches = t.batches3, !.len = t.len3, !.scenario = [t.scenario EXCEPT !.tb = t.scenario.tb2, !.bb = t.scenario.bb3]]
 \* which acknowledged deviation (if any) reproduces a rejected observation exactly
 RECURSIVE DevOf(_, _)
 DevOf(t, clause) ==
     LET s == Sc(t) IN
     IF s.kind = "points" THEN ""
     ELSE IF clause = "CoverOK(after the trunk batch size changed)" THEN DevOf(T2(t), "CoverOK")
+    ELSE IF clause = "CoverOK(after the branch batch size changed)" THEN DevOf(T3(t), "CoverOK")
     ELSE IF clause # "CoverOK" THEN ""
     ELSE IF s.kind = "shared" /\ SameUpToRenaming(DO_Ep(t), ImplEpoch("shared", s.Nb, s.Nt, s.bb, s.tb, {}))
          THEN "dl_shared_joint_index"
@@ -105,7 +107,10 @@ DevOf(t, clause) ==
 \* the second epoch of a per-function loader, after the data set's trunk batch size was changed: judged like a first epoch with that size
 DO_Check2(t) == LET c == DO_Check(t) IN
                 IF c # "ok" \/ ~Has(t, "batches2") THEN c
-                ELSE LET c2 == DO_Check(T2(t)) IN IF c2 = "ok" THEN "ok" ELSE c2 \o "(after the trunk batch size changed)"
+                ELSE LET c2 == DO_Check(T2(t)) IN
+                     IF c2 # "ok" THEN c2 \o "(after the trunk batch size changed)"
+                     ELSE IF ~Has(t, "batches3") THEN "ok"
+                     ELSE LET c3 == DO_Check(T3(t)) IN IF c3 = "ok" THEN "ok" ELSE c3 \o "(after the branch batch size changed)"
 Check(t) == IF Has(t, "driver_error") THEN "driver-error"
             ELSE IF Has(t, "error") THEN "call-failed:" \o (IF Len(t.error) > 1 THEN t.error[2] ELSE t.error[1])
             \* the user's tensors are the user's: building loaders (also two from the same tensors) leaves them unchanged
